@@ -140,6 +140,20 @@ mut("c11-alias-unescaped-reintroduced", MP, "json.dumps(name, ensure_ascii=False
 mut("c11-attrs-metadata-python-name", MA, "            body_kwargs[\"metadata\"] = {METADATA_FIELD_NAME: name}", "            body_kwargs[\"metadata\"] = {METADATA_FIELD_NAME: data[\"name\"]}", ["C11", "C04"])
 mut("c11-dataclass-metadata-dropped-for-keywords", MD, "        if not self.no_meta and name != data[\"name\"]:", "        if not self.no_meta and name != data[\"name\"] and name + '_' != data[\"name\"]:", ["C11", "C04"])
 mut("c11-alias-ascii-only", MP, "json.dumps(name, ensure_ascii=False)", "json.dumps(name.encode('ascii', 'ignore').decode())", ["C11"])
+# ---- C12 ----------------------------------------------------------------------------------------------
+mut("c12-nested-child-at-module-level", ST, "                parent[\"nested\"].append(struct)", "                root_models.append(struct) if len(struct[\"roots\"]) and key.endswith('D') else parent[\"nested\"].append(struct)", ["C12"])
+mut("c12-flat-child-before-root", ST, "            root_models.insert(pos, struct)", "            root_models.insert(pos if len(root_models) > 2 else 0, struct)", ["C12"])
+mut("c12-nested-wrong-parent", ST, "                parent = structure_hash_table[min(parents, key=models_order.index)]\n                struct = structure_hash_table[key]", "                parent = structure_hash_table[struct[\"roots\"][0]] if struct[\"roots\"] else structure_hash_table[min(parents, key=models_order.index)]\n                struct = structure_hash_table[key]", ["C12"])
+mut("c12-nested-model-dropped", MB, "    for data in structure:\n        nested_imports, nested_classes = _generate_code(", "    for data in structure:\n        if lvl >= 3:\n            continue\n        nested_imports, nested_classes = _generate_code(", ["C12", "C03"])
+mut("c12-nested-indent-once", MB, "            data[\"nested\"] = [indent(s) for s in nested_classes]", "            data[\"nested\"] = [indent(s) for s in nested_classes[:1]] + [s for s in nested_classes[1:]]", ["C12", "C03"])
+# ---- C13 ----------------------------------------------------------------------------------------------
+mut("c13-regex-any-key", G, "                if all(map(reg.match, value.keys())):", "                if any(map(reg.match, value.keys())):", ["C13"])
+mut("c13-dkf-propagates-into-lists", G, "                types = [self._detect_type(item) for item in value]\n                if len(types) > 1:\n                    union = DUnion(*types)\n                    if len(union.types) == 1:\n                        return DList(*union.types)",
+    "                types = [self._detect_type(item, convert_dict) for item in value]\n                if len(types) > 1:\n                    union = DUnion(*types)\n                    if len(union.types) == 1:\n                        return DList(*union.types)", ["C13"])
+mut("c13-cli-anchoring-ungrouped", CLI, 'rf"^(?:{r})$"', 'rf"^{r}$"', ["C13"])
+mut("c13-cli-no-end-anchor", CLI, 'rf"^(?:{r})$"', 'rf"^(?:{r})"', ["C13"])
+mut("c13-dkf-ignored-for-nested", G, "            convert_dict = key not in self.dict_keys_fields", "            convert_dict = key not in self.dict_keys_fields or len(data) == 1", ["C13"])
+mut("c13-mapping-values-inherit-dict", G, "                types = [self._detect_type(item) for item in value.values()]", "                types = [self._detect_type(item, False) for item in value.values()]", ["C13"])
 # ---- neutral (behaviour preserving) -------------------------------------------------------------------
 mut("neutral-rename-local", G, "        fields_sets = [self._convert(data) for data in data_variants]\n        fields = self.merge_field_sets(fields_sets)",
     "        variants = [self._convert(data) for data in data_variants]\n        fields = self.merge_field_sets(variants)", ["C01", "C02", "C05"], kind="neutral")
